@@ -557,9 +557,12 @@ impl PrefixCodeGroup {
                 );
             }
 
+            // A simple code naming the same symbol twice is a code with a single symbol, which is read using zero bits.
             let symbols = match second_symbol {
-                Some(second_symbol) => vec![(first_symbol, vec![0]), (second_symbol, vec![1])],
-                None => vec![(first_symbol, vec![])],
+                Some(second_symbol) if second_symbol != first_symbol => {
+                    vec![(first_symbol, vec![0]), (second_symbol, vec![1])]
+                }
+                _ => vec![(first_symbol, vec![])],
             };
             CanonicalHuffmanTree::from_symbols(symbols)?
         } else {
